@@ -536,6 +536,11 @@ func (e *Engine) explore(entries []EntryCfg, nworkers int, solverBin string, qti
 		if err != nil {
 			return nil, nil, err
 		}
+		if e.tier == "thorough" {
+			s.CrossEvery, s.CrossMax = 300, 12
+		} else {
+			s.CrossEvery, s.CrossMax = 2500, 2
+		}
 		w := &Worker{id: wi, tt: tt, solver: s, funcs: map[*ssa.Function]bool{}}
 		workers[wi] = w
 		wg.Add(1)
